@@ -612,6 +612,7 @@ def check_tangent(net, rng, n, rep):
         return 0
     all_lanes = Oracle(lanes)
     inters = Oracle(net.intersections)
+    all_roads = Oracle(net.allRoads)
     done = 0
     for _ in range(n):
         lane = rng.choice(lanes)
@@ -659,6 +660,12 @@ def check_tangent(net, rng, n, rep):
         di = inters.distances(pt)
         if len(di) and float(di.min()) <= net.tolerance + 1e-9:
             rep.skip("tangent_roadDirection_in_intersection")
+            continue
+        # consecutive roads overlap slightly at their joint (buffered unions): where another road's polygon
+        # is within tolerance, the lookup may legitimately answer with that road's direction
+        dr_ = all_roads.distances(pt)
+        if int((dr_ <= net.tolerance + 1e-9).sum()) != 1:
+            rep.skip("tangent_roadDirection_overlapping_roads")
             continue
         rd = net.roadDirection[v].yaw
         rep.check(angdiff(rd, expected) <= 1e-6, "tangent.roadDirection", lane.uid,
